@@ -21,6 +21,7 @@ s_x  == <<120>>         \* "x"
 s_X  == <<88>>          \* "X"
 s_xy == <<120, 121>>    \* "xy"
 s_sx == <<32, 120>>     \* " x"
+s_0  == <<48>>          \* "0"
 s_1  == <<49>>          \* "1"
 s_2  == <<50>>
 s_3  == <<51>>
@@ -194,11 +195,17 @@ ActLists ==
     <<ASetvar(KS, "set", <<Mac("MATCHED_VAR", << >>)>>), ASetvar(KN, "add", <<Lit(s_1)>>)>>,
     <<ASetvar(KS, "set", <<Lit(s_x)>>), ASetvar(KS, "del", << >>)>>,
     <<ASetvar(<<Lit(s_c_), Mac("MATCHED_VAR", << >>)>>, "add", <<Lit(s_1)>>)>>,
-    <<ASetvar(KN, "set", <<Lit(s_3)>>), ASetvar(KN, "add", <<Lit(s_1)>>)>> }
+    <<ASetvar(KN, "set", <<Lit(s_3)>>), ASetvar(KN, "add", <<Lit(s_1)>>)>>,
+    <<ASetvar(KS, "add", <<Lit(s_0)>>)>>,                       \* adding zero to a counter that does not exist yet creates it
+    <<ASetvar(KS, "sub", <<Lit(s_0)>>), ASetvar(KN, "add", <<Mac("TX", s_s)>>)>> }
+\* one counter per matched target: the key is built from MATCHED_VAR_NAME
+PerTargetActs == { <<ASetvar(<<Lit(s_c_), Mac("MATCHED_VAR_NAME", << >>)>>, "add", <<Lit(s_1)>>)>>,
+                   <<ASetvar(<<Lit(s_c_), Mac("MATCHED_VAR_NAME", << >>)>>, "add", <<Lit(s_1)>>), ASetvar(KS, "set", <<Mac("MATCHED_VAR_NAME", << >>)>>)>> }
+
 ActsChainKinds == {"none", "plain", "counting", "denyStarter"}
 ActsRule10(pk) ==
   LET acts == pk.acts \o (IF pk.ch = "denyStarter" THEN <<A("deny")>> ELSE << >>)
-      l1 == RuleLink(<<T("ARGS_GET")>>, IF pk.mm THEN <<"lowercase">> ELSE << >>, OpLit("streq", s_x), pk.mm, acts)
+      l1 == RuleLink(IF pk.both THEN <<T("ARGS_GET"), T("ARGS_POST")>> ELSE <<T("ARGS_GET")>>, IF pk.mm THEN <<"lowercase">> ELSE << >>, OpLit("streq", s_x), pk.mm, acts)
       l2 == RuleLink(<<T("ARGS_POST")>>, << >>, OpLit("streq", s_x), FALSE,
                      IF pk.ch = "counting" THEN <<ASetvar(KN, "add", <<Lit(s_1)>>)>> ELSE << >>)
   IN [MkRule(10, pk.p, IF pk.ch = "none" THEN <<l1>> ELSE <<l1, l2>>) EXCEPT !.sev = pk.sev]
@@ -209,7 +216,10 @@ ActsPicks(maxEntries, two, slice, slices) ==
   [acts : SliceOf(ActLists, slice, slices), mm : BOOLEAN, ch : ActsChainKinds, sev : {0 - 1, 2, 5}, p : {1, 2},
    acts2 : IF two THEN {<<ASetvar(KN, "add", <<Lit(s_1)>>)>>, <<ASetvar(KN, "sub", <<Lit(s_2)>>)>>} ELSE {<< >>},
    p2 : IF two THEN {1, 2} ELSE {0},
-   rq : SeqsUpTo(ActsEntries, maxEntries), post : BOOLEAN]
+   rq : SeqsUpTo(ActsEntries, maxEntries), post : BOOLEAN, both : {FALSE}]
+  \cup  \* one rule over two collections that carry the same key
+  [acts : SliceOf(PerTargetActs, slice, slices), mm : BOOLEAN, ch : {"none"}, sev : {0 - 1}, p : {2}, acts2 : {<< >>}, p2 : {0},
+   rq : SeqsUpTo(ActsEntries, maxEntries), post : {TRUE}, both : {TRUE}]
 ActsScen(pk) ==
   MkScen(<<MkRule(5, 1, <<ActLink(<<ASetvar(<<Lit(s_k)>>, "set", <<Lit(s_2)>>), ASetvar(<<Lit(s_neg)>>, "set", <<Lit(s_m3)>>)>>)>>),
            ActsRule10(pk)>>
